@@ -589,6 +589,10 @@ class _CanonYX(ast.NodeTransformer):
         if isinstance(n.value, ast.Attribute) and n.value.attr == 'yx' and \
                 isinstance(n.slice, ast.Constant) and n.slice.value in (0, 1):
             return ast.Attribute(n.value.value, 'yx'[n.slice.value], ast.Load())
+        if isinstance(n.value, ast.Attribute) and n.value.attr == 'as_tuple' and \
+                isinstance(n.slice, ast.Constant) and n.slice.value in (0, 1):
+            # Shape.as_tuple is (height, width) (anchor checked by C15.R3 / C16.R3)
+            return ast.Attribute(n.value.value, ('height', 'width')[n.slice.value], ast.Load())
         if isinstance(n.slice, ast.Attribute) and n.slice.attr == 'yx':
             n.slice = ast.Tuple([ast.Attribute(n.slice.value, 'y', ast.Load()),
                                  ast.Attribute(copy.deepcopy(n.slice.value), 'x', ast.Load())],
@@ -596,8 +600,34 @@ class _CanonYX(ast.NodeTransformer):
         return n
 
 
+def dims_of(e: ast.AST) -> Optional[List[str]]:
+    """the dimensions denoted by an (expanded) array-shape expression, as canonical texts:
+    `(a, b, 1)`, `X.as_tuple` (= X.height, X.width), `(*X.as_tuple, 1)`, tuple sums"""
+    if isinstance(e, ast.Attribute) and e.attr == 'as_tuple':
+        b = ast.unparse(e.value)
+        return [f'{b}.height', f'{b}.width']
+    if isinstance(e, (ast.Tuple, ast.List)):
+        out: List[str] = []
+        for x in e.elts:
+            if isinstance(x, ast.Starred):
+                d = dims_of(x.value)
+                if d is None:
+                    return None
+                out += d
+            else:
+                out.append(ast.unparse(x))
+        return out
+    if isinstance(e, ast.BinOp) and isinstance(e.op, ast.Add):
+        a, b = dims_of(e.left), dims_of(e.right)
+        return a + b if a is not None and b is not None else None
+    if isinstance(e, ast.Call) and isinstance(e.func, ast.Name) and e.func.id == 'tuple' and \
+            len(e.args) == 1 and not e.keywords:
+        return dims_of(e.args[0])
+    return None
+
+
 def canon_yx(e: ast.AST) -> ast.AST:
-    if not any((isinstance(n, ast.Attribute) and n.attr == 'yx') or
+    if not any((isinstance(n, ast.Attribute) and n.attr in ('yx', 'as_tuple')) or
                (isinstance(n, ast.Subscript) and isinstance(n.value, ast.Tuple))
                for n in ast.walk(e)):
         return e
